@@ -208,6 +208,28 @@ let op_goparse (args : string list) : string =
     (match l.M.l_searchmoves with [] -> "-" | ms -> String.concat "," (List.map ostr ms))
 
 
+(* session <cmd> ; <cmd> ; ... : the extracted UCI-session state machine (Engine/UciSession.v); prints the FEN after every command.
+   cmd = position startpos [moves ...] | position fen <6 fields> [moves ...] | moves ... | ucinewgame *)
+let op_session (rest : string) : string =
+  let parts = List.map String.trim (String.split_on_char ';' rest) in
+  let parse_cmd (c : string) : M.ucmd option =
+    match words c with
+    | "ucinewgame" :: _ -> Some M.CNewGame
+    | "moves" :: ms -> Some (M.CMoves (List.map cstr ms))
+    | "position" :: "startpos" :: tl ->
+      let ms = (match tl with "moves" :: ms -> ms | _ -> []) in Some (M.CPosition (None, List.map cstr ms))
+    | "position" :: "fen" :: a :: b :: c2 :: d :: e :: f :: tl ->
+      (match parse_fen (String.concat " " [a; b; c2; d; e; f]) with
+       | None -> None
+       | Some p -> let ms = (match tl with "moves" :: ms -> ms | _ -> []) in Some (M.CPosition (Some p, List.map cstr ms)))
+    | _ -> None in
+  let cmds = List.map parse_cmd parts in
+  if List.exists (fun c -> c = None) cmds then "BAD-CMD"
+  else
+    let cs = List.map (function Some c -> c | None -> M.CNewGame) cmds in
+    String.concat " ; " (List.map (fun p -> ostr (M.fen_print p)) (M.usession cs))
+
+
 (* s2s <v> : the model of score2str *)
 let op_s2s (args : string list) : string =
   match args with
@@ -751,6 +773,7 @@ let dispatch (line : string) : string =
      | "mate" -> op_mate args line
      | "matem" -> op_matem args line
      | "goparse" -> op_goparse args
+     | "session" -> op_session (rest_after line 1)
      | "threats" -> op_threats (rest_after line 1)
      | "hm" -> op_hm args
      | "egeval" -> op_egeval (rest_after line 1)
